@@ -20,6 +20,7 @@ META = {
 META["explanation"] += " The dynamic limit / count input of Head, Tail and Skip is an eyeball Subscriber: its poll functions are checked with the same typestate (R02.7) and the leaf's pending => registered clause (R02.2)."
 META["explanation"] += ' The waker-list inventory (R02.3 wake all, R02.4 full drain after every version write, R02.5 only push / drain / take) is evaluated here: a registered waker stays registered until it is woken.'
 META["explanation"] += ' Also evaluated here: the ready-buffer rules (R13.1, R13.3, R13.5-R13.8) - returning Pending whenever the source is Pending is right only because nothing is parked in the ready buffer across such a return (batched containers cannot buffer). The typestate runs on combinator-desugared bodies and has the locally-owned-input clause (see C02).'
+META["explanation"] += " Poll functions that build Pending without polling anything (other than eyeball's audited poll leaf) are included: their Pending is reported as not caused by an input (a hand-rolled waker list whose wake discipline no rule verifies)."
 
 
 def run(ctx):
